@@ -230,7 +230,7 @@ func init() {
 	RegisterPlan("C20", func(tier string) *Plan {
 		return &Plan{
 			Prop: "C20", Level: "exploration", Engine: "session",
-			Runs:   tierPick(tier, 30000, 1500000),
+			Runs:   tierPick(tier, 300000, 15000000),
 			Budget: tierPick(tier, 45*time.Second, 10*time.Minute),
 			Rule: "histories of OnPut/Has/Put/Close (and calls after Close) on a deferred writer whose target is a simulated stream (call-logging sink) or a path in the simulated file system; after every step: zero stream writes and no file before the first Put attempt, afterwards target bytes equal a directly constructed storage.NewWritable fed the same puts; callback log per Put equals the registration-order model; ErrClosed after Close. " +
 				"Non-trivial = at least one Put attempted; distinct = distinct (options, op string)",
